@@ -1,6 +1,7 @@
 import SwimVerif.Model.SupplyLane
 
 set_option linter.unusedVariables false
+set_option linter.unusedSimpArgs false
 namespace SwimVerif.Sup
 
 variable {α : Type}
@@ -48,25 +49,24 @@ theorem result_done_iff (l : Lane α) : l.result = .done ↔ l.eventQ = [] ∧ l
 structure Inv (s : St α) : Prop where
   fifo : events s.written ++ s.lane.eventQ = s.pushed
   syncs : synceds s.written ++ s.lane.syncQ = s.requested
-  res : s.lastResult = some .done → True
 
-theorem inv_init : Inv ({} : St α) := ⟨rfl, rfl, fun _ => trivial⟩
+theorem inv_init : Inv ({} : St α) := ⟨rfl, rfl⟩
 
 theorem inv_step {s : St α} (h : Inv s) (op : Op α) : Inv (step s op) := by
   cases op with
   | push a =>
-    refine ⟨?_, ?_, fun _ => trivial⟩
+    refine ⟨?_, ?_⟩
     · show events s.written ++ (s.lane.eventQ ++ [a]) = s.pushed ++ [a]
       rw [← List.append_assoc, h.fifo]
     · exact h.syncs
   | sync r =>
-    refine ⟨?_, ?_, fun _ => trivial⟩
+    refine ⟨?_, ?_⟩
     · exact h.fifo
     · show synceds s.written ++ (s.lane.syncQ ++ [r]) = s.requested ++ [r]
       rw [← List.append_assoc, h.syncs]
   | write =>
     obtain ⟨e1, e2, _⟩ := write_spec s.lane
-    refine ⟨?_, ?_, fun _ => trivial⟩
+    refine ⟨?_, ?_⟩
     · show events (s.written ++ s.lane.write.2.1.toList) ++ s.lane.write.1.eventQ = s.pushed
       rw [events_append, List.append_assoc, e1, h.fifo]
     · show synceds (s.written ++ s.lane.write.2.1.toList) ++ s.lane.write.1.syncQ = s.requested
